@@ -501,7 +501,15 @@ func (c *compiler) evalIdentifier(node *ast.Identifier) (interface{}, error) {
 			return nil, fmt.Errorf("'%s' does not have a field or method named '%s' (%s)", node.Callee.String(), node.Value, node)
 		}
 
-		f := rv.FieldByName(node.Value)
+		var f reflect.Value
+		if sf, ok := rv.Type().FieldByName(node.Value); ok {
+			ff, ferr := rv.FieldByIndexErr(sf.Index)
+			if ferr != nil {
+				// promoted through a nil embedded pointer: a member of nil is nil
+				return nil, nil
+			}
+			f = ff
+		}
 		if f.Kind() == reflect.Ptr {
 			if f.IsNil() {
 				return nil, nil
